@@ -229,7 +229,12 @@ class Indexer(object):
             The value to set.
         """
         if self._flat_src:
-            arr.ravel()[self.flat()] = val
+            flat = arr.ravel()
+            if not np.shares_memory(flat, arr):
+                # ravel() of a non-contiguous array (e.g. the real part of a complex vector) is a
+                # copy, so assigning into it would be lost
+                flat = arr.flat
+            flat[self.flat()] = val
         else:
             arr[self()] = val
 
